@@ -267,4 +267,19 @@ CHECKS = {
             dict(name="fuzzpaths", run="^$", fuzz="^FuzzPaths$", fuzztime="45s", tiers=("thorough",), timeout_thorough=240),
         ],
     ),
+    "C20": dict(
+        pkg="c20", level="exploration",
+        rule=("deviant file systems = mem.FS behind a wrapper applying ONE deviation from the grammar (operation) x (kind) x (trigger): operations mkdir, mkdirall, openfile, open, remove, rename, stat, chmod, chtimes and the handle methods read, readat, write, writeat, seek, truncate, readdir, stat, close; "
+              "kinds: silently do nothing, apply twice, drop the entry, leave the source behind, flipped permission bits, wrong size, wrong name, wrong bytes, wrong n, early EOF, wrong error kind, wrong error path, ignore O_TRUNC, drop/duplicate/mis-kind a directory entry; triggers: always, k-th call (1..3), names containing foo / bar. "
+              "Each evaluation re-executes the compiled test binary running fstest.FS + fstest.File against the deviant. The wrapper also RECORDS every call the suite makes and what it got back (error class and paths, n, bytes, FileInfo, entries), per scenario; the same recorder runs on the reference. "
+              "A deviant is non-trivial iff some scenario's recorded results differ from the reference's (as multisets; scenarios whose goroutines / parallel sub-tests share one FS only count for triggers that do not depend on a call count); then the suite must exit != 0. "
+              "catalogue leg (quick): every (operation, kind) with trigger 'always' (69 deviants). grammar leg (thorough): the whole finite grammar (414 deviants). reference leg: the suite passes on mem.FS and os.FS at -test.parallel/GOMAXPROCS in {1,16} x {1,16}, repeatedly, with identical recorded behaviour. "
+              "non-trivial & distinct = deviants whose recorded behaviour differs"),
+        assumptions=["substituting ErrNotImplemented is not a deviation (the suite skips what a file system declares unsupported)", "a deviant whose effect is never observed through the calls the suite makes is counted as trivial, not as a survivor"],
+        legs=[
+            dict(name="reference", run="^TestReference$"),
+            dict(name="catalogue", run="^TestCatalogue$", tiers=("quick",)),
+            dict(name="grammar", run="^TestGrammar$", tiers=("thorough",)),
+        ],
+    ),
 }
